@@ -10,6 +10,7 @@
   two into one action.  Core Lean only.
 -/
 import KiraModel.Proofs.HandLemmas
+import KiraModel.Proofs.SelfStoreLemmas
 
 namespace K
 open Hand Store
@@ -288,6 +289,43 @@ theorem C08_destroyed_off_audio_thread {ar : Bool} {cap : Nat} (hc : 0 < cap) {s
   · exact h1
   · subst h1; simp [Label.isAudio] at ha
 
+/-- **the self-referential storage's `keys`.**  For a `SelfReferentialResourceStorage` (clocks,
+    modulators, listeners) of capacity `cap > 0`, started empty and used through its operations
+    (`SWF` is the invariant they maintain):
+    (1) `keys` lists exactly the occupied arena slots, each once;
+    (2) the remove half of `remove_and_add` never panics, keeps `keys` a sub-list of what it was (so
+        the order of insertion is preserved), removes only flagged resources, leaves a flagged one in
+        place only if the unused ring is full, and destroys nothing;
+    (3) the add half appends the keys of the new-resource ring in FIFO order — so `keys` is always in
+        insertion order;
+    (4) `for_each` never panics, visits every resource exactly once in `keys` order (as many visits as
+        occupied slots), hands `f` the resource itself while the resource's own id resolves to the
+        dummy, and leaves `keys` and the shape of the arena unchanged. -/
+theorem C08_selfref_keys {τ : Type} {cap : Nat} (hc : 0 < cap) (dummy : τ) :
+    SelfStore.SWF cap [] (SelfStore.new cap dummy)
+    ∧ ∀ (held : List Key) (ss : SelfStore τ), SelfStore.SWF cap held ss →
+        ((ss.keys.map (·.index)).Nodup ∧ (∀ i, i ∈ ss.keys.map (·.index) ↔ i ∈ ss.base.arena.order))
+        ∧ (∀ test : τ → Bool, ∃ ss', ss.drainPhase test = .ok ss' ∧ SelfStore.SWF cap held ss'
+              ∧ ss'.keys.Sublist ss.keys ∧ ss'.base.dropped = ss.base.dropped
+              ∧ (∀ k ∈ ss.keys, k ∉ ss'.keys → SelfStore.Flagged test ss.base k)
+              ∧ (∀ k ∈ ss'.keys, SelfStore.Flagged test ss.base k → ss'.base.unused.isFull = true))
+        ∧ (∀ ss', ss.addPhase = .ok ss' → SelfStore.SWF cap held ss'
+              ∧ ss'.keys = ss.keys ++ ss.base.newRing.items.map (·.1))
+        ∧ (∀ f : τ → Arena τ → τ, ∃ ss' vs, ss.forEach f = .ok (ss', vs) ∧ SelfStore.SWF cap held ss'
+              ∧ ss'.keys = ss.keys ∧ vs.length = ss.base.arena.order.length
+              ∧ vs.map (·.1) = ss.keys.filterMap (fun k => ss.base.arena.dataAt k.index)
+              ∧ (∀ v ∈ vs, v.2 = some ss.dummy)) := by
+  refine ⟨SelfStore.swf_new cap hc dummy, fun held ss h => ⟨⟨h.nodup, h.mem⟩, ?_, ?_, ?_⟩⟩
+  · intro test
+    obtain ⟨ss', h1, h2, h3, _, _, h6, h7, h8⟩ := SelfStore.swf_drainPhase test h
+    exact ⟨ss', h1, h2, h3, h6, h7, h8⟩
+  · intro ss' hs
+    obtain ⟨h1, h2, _⟩ := SelfStore.swf_addPhase h hs
+    exact ⟨h1, h2⟩
+  · intro f
+    obtain ⟨ss', vs, h1, h2, h3, _, h5, h6, h7⟩ := SelfStore.swf_forEach f h
+    exact ⟨ss', vs, h1, h2, h3, h5, h6, h7⟩
+
 /-! ### non-vacuity -/
 
 theorem Hand.run_reachable {ar : Bool} {cap : Nat} {s s' : St} (h : Reachable ar cap s) (ls : List Label)
@@ -324,5 +362,17 @@ example : (match run true (init 1) [.gReserve, .gPopUnused, .gPushNew, .aBegin, 
       .aBegin, .aVisit, .aEndDrain, .aPopNew, .gReserve] with
     | .ok s => (s.store.arena.get? ⟨0, 0⟩, s.gpc, s.store.dropped) | .error _ => (none, .idle, [])) =
     (none, .reserved ⟨0, 1⟩, []) := by rfl
+
+/-- a self-referential storage with two resources: `keys` is in insertion order, `for_each` visits
+    them in that order, each seeing the dummy under its own id, and writes the modified resources back -/
+example : (match (Store.new 2 : Store Nat).insert 10 with
+    | .ok (_, b1) => match b1.insert 11 with
+      | .ok (_, b2) => match (SelfStore.mk b2 [] 99).removeAndAdd (fun _ => false) with
+        | .ok ss => match ss.forEach (fun x _ => x + 1) with
+          | .ok (ss', vs) => (ss.keys, vs, ss'.base.iter.map (·.2))
+          | .error _ => ([], [], [])
+        | .error _ => ([], [], [])
+      | .error _ => ([], [], [])
+    | .error _ => ([], [], [])) = ([⟨0, 0⟩, ⟨1, 0⟩], [(10, some 99), (11, some 99)], [12, 11]) := by rfl
 
 end K
